@@ -299,8 +299,11 @@ def _make_func(tr, CapturedArg, fname, spec):
         if 'fallback' in spec:
             fb = spec['fallback']
             if isinstance(fb, dict):  # callable fallback
-                lst = fb['call']
-                opts['fallback_aliases'] = lambda *a, **k: list(lst)
+                lst = fb.get('call') or fb.get('call_iter')
+                if 'call_iter' in fb:   # the documented callable form, answering with a one-shot iterator instead of a list
+                    opts['fallback_aliases'] = lambda *a, **k: (x for x in list(lst))
+                else:
+                    opts['fallback_aliases'] = lambda *a, **k: list(lst)
             else:
                 opts['fallback_aliases'] = list(fb)
         if spec.get('run_orig'):
@@ -1028,7 +1031,7 @@ def ref_replay(R, prog2, funcs=None):
                 return
             alias = spec['alias'].format(id=step.get('ident', 'A')) if spec.get('resolver') else spec['alias']
             fb = spec.get('fallback', [])
-            fb = fb['call'] if isinstance(fb, dict) else fb
+            fb = (fb.get('call') or fb.get('call_iter')) if isinstance(fb, dict) else fb
             cap = canon(_captured(spec, args, kw))
             for a in [alias] + list(fb):
                 if (a, cap) in R['inputs']:
